@@ -146,6 +146,17 @@ def _check_outputs(res, sc, ref_ids, ctx, case, tag=""):
     return {"novel": len(novel), "repeated": repeated, "chroms": len(chrs), "eg": eg}
 
 
+@st.composite
+def split_scenarios(draw):
+    """Loci processed in several regions (generator of C03/C05): a reference gene across a split point supported by
+    different reads on both sides - every id is still reported once."""
+    from props import c03
+    sc = draw(c03.split_scenarios())
+    sc.setdefault("gtf", {"gene_records": True, "transcript_records": True})
+    sc["gtf"]["exon_ids"] = draw(st.booleans())
+    return sc
+
+
 def evaluate(case, ctx):
     sc = case
     res = pipeline.run_case(sc, ctx)
@@ -429,6 +440,7 @@ def evaluate_distributor(case, ctx):
 def stages(tier):
     q = tier == "quick"
     return [Stage("ids", "hyp", evaluate, n=160 if q else 2400, strategy=scenarios),
+            Stage("split", "hyp", evaluate, n=32 if q else 400, strategy=split_scenarios),
             Stage("feedback", "hyp", evaluate_feedback, n=64 if q else 800, strategy=feedback_scenarios),
             Stage("distributor", "hyp", evaluate_distributor, n=4000 if q else 120000, strategy=distributor_cases),
             Stage("fuzz_distributor", "hypfuzz", evaluate_distributor, n=2000 if q else 120000,
